@@ -745,6 +745,12 @@ def query_to_map(text):
 @functools.lru_cache()
 def urljoin(base_url, url, allow_fragments=True):
     '''Join URLs like ``urllib.parse.urljoin`` but allow scheme-relative URL.'''
+    if not allow_fragments and url.startswith('#'):
+        # A reference that is only a fragment names the base document
+        # itself. Without fragment handling urllib takes "#top" for a
+        # file name next to it.
+        return base_url.split('#', 1)[0] + url
+
     if url.startswith('//') and len(url) > 2:
         scheme = base_url.partition(':')[0]
         if scheme:
